@@ -5,7 +5,9 @@ proof:   Props/C06.lean (same_location_edge, untouched_iff_disp_eq, no_edge_when
          update_add_add) about DG.isMemload / DG.updateState.
 tie:     correspondence of create_DG on generated store/load kernels (all addressing shapes, pointer bumps,
          copies, clobbers, second store; both ISAs; shipped models), edges with weights.
-search:  the generator's own symbolic bookkeeping (a third implementation): store->load edge iff same location.
+search:  the generator's own symbolic bookkeeping (a third implementation): store->load edge iff same location;
+         after an access post-indexed by a register (`ld1 {v5.2d}, [x1], x2`, `st1 {v3.4s}, [x4], x5`) its base is unknown:
+         no store->load dependency through it is reported, none is demanded (Props/C06 no_edge_after_register_post_index).
 """
 from harness import core, dgcheck
 from harness.props.c03 import replay_common
@@ -37,6 +39,17 @@ def run(ctx):
                 if abs(edge - want) > 1e-9:
                     ctx.violation("store->load edge weight %r, expected store latency + forwarding latency = %r" % (edge, want),
                                   dict(im.info(), edge=edge, expected=want))
+        if meta.get("load_through_unknown"):
+            # the load forms its address with a register that an access post-indexed by a REGISTER (`ld1 {v5.2d}, [x1], x2`)
+            # moved by an unknown amount (or with a copy of it): nothing can be said about the location -- no
+            # store->load dependency is demanded, and none may be reported
+            ctx.count("expected_unknown_after_register_post_index")
+            if meta.get("same_location"):
+                raise core.InfraError("generator bookkeeping: a location behind a register post-index is claimed to be known: %r" % (im.lines,))
+            if edge is not None and not second_store:
+                ctx.violation("store->load dependency reported through a base register that was post-indexed by a register "
+                              "(changed by an unknown amount) after the store",
+                              dict(im.info(), store=im.lines[0], load=im.lines[-2], edge=edge, register_post_index=meta.get("register_post_index")))
         elif not meta.get("same_location") and not second_store:
             # different displacement / different base / changed beyond reconstruction: no dependency through memory.
             # (a register RAW edge between the two lines cannot exist: the store writes no register the load reads,
@@ -55,7 +68,9 @@ def run(ctx):
     ctx.cov["distinct_nontrivial"] = len(distinct)
     ctx.cov["traces_validated_against_impl"] = ctx.counts.get("dg_compared", 0)
     ctx.cov["rule"] = "generated store/load kernels; non-trivial = same-location cases (an edge must exist), distinct by text"
-    ctx.log("%d kernels: %d same-location, %d different" % (ctx.counts.get("kernels", 0), ctx.counts.get("expected_same", 0), ctx.counts.get("expected_diff", 0)))
+    ctx.log("%d kernels: %d same-location, %d different (%d of them: the load's base was post-indexed by a register)"
+            % (ctx.counts.get("kernels", 0), ctx.counts.get("expected_same", 0), ctx.counts.get("expected_diff", 0),
+               ctx.counts.get("expected_unknown_after_register_post_index", 0)))
     return ctx.finish(trusted=dgcheck.TRUSTED)
 
 
